@@ -623,6 +623,11 @@ func runFrame(fr *frame) {
 		nonPhis := executePhis(fr)
 		for _, instr := range nonPhis {
 			E.steps++
+			if E.hangLimit > 0 && E.steps > E.hangLimit {
+				E.hangLimit = 0
+				E.lastPanicStack = E.stack()
+				E.endPath("hang", "no progress: more than the allowed number of steps without finishing (busy loop) at "+E.where(fr.g))
+			}
 			if E.steps > E.maxSteps {
 				E.inconclusive(fmt.Sprintf("step budget %d exhausted (unwinding assertion)", E.maxSteps))
 			}
